@@ -51,7 +51,7 @@ contract("codemodder.codetf.CodeTF.write_report", props=["C20", "C15"],
                   ("0 exactly when the whole serialised report reached the file",
                    "implies(result == 0, fs[outfile] == self.model_dump_json(exclude_none=True).encode('utf-8'))"),
                   ("ghost: report_written records a successful write", "report_written == (old(report_written) or result == 0)"),
-                  ("only the report file is touched", "all(implies(p != outfile, fs[p] == old(fs)[p]) for p in ANY('Opaque'))")],
+                  ("only the report file is touched", "fs == store(old(fs), outfile, fs[outfile])")],
          covers=["result == 0", "result == 2"])
 
 
